@@ -697,6 +697,25 @@ def r07_12(prog, rep, rid="R07.12"):
         rep.fail(rid, key, f.loc(), "the occurrences a filler has written to the cache are not each converted with echs_instant_utc(occurrence, zone of the "
                  "stream) over the whole filled part: they leave the stream on the zone's wall clock (or at one common offset, which is wrong "
                  "across every DST change and wrong by a calendar day for rules that name days)")
+    # (a') what is kept back for the next refill is still on the wall clock: it is taken off the cache before the conversion
+    key = "refill/seed-kept-before-the-conversion"
+    seeds = []
+    for b, i, x, line in cfg.all_elems():
+        if isinstance(x, dict):
+            for l, kind, nn in writes(x):
+                if lv(l).endswith("e.from") and nn.get("k") == "bin" and nn["op"] == "=" and \
+                        any(q.get("k") == "idx" and "cch" in lv(q) for q in walk(cfg.resolve(nn["r"]))):
+                    seeds.append((b, i, line))
+    if not seeds:
+        rep.fail(rid, key, f.loc(), "refill() no longer keeps an instant back as the start of the next batch")
+    else:
+        late = [sd for sd in seeds for cb, cl, same, z in good if (cb == sd[0]) or (sd[0] in cfg.reach_from(cb))]
+        if late:
+            rep.fail(rid, key, f.loc(late[0][2]), "the instant kept back as the start of the next batch is taken from the cache *after* the occurrences have been "
+                     "converted to UTC: from the second batch on (the 64th occurrence) the fillers expand UTC dates and refill() converts them "
+                     "a second time")
+        else:
+            rep.ok(rid, key, f.loc(seeds[0][2]), "the next batch's start is taken off the cache while it is still on the wall clock")
     # (b) UNTIL on the wall clock
     key = "refill/until-on-the-wall-clock"
     oku = False
@@ -715,6 +734,91 @@ def r07_12(prog, rep, rid="R07.12"):
     else:
         rep.fail(rid, key, f.loc(), "the fillers (or one of them) compare their wall-clock candidates with an UNTIL that is still UTC: occurrences within the "
                  "zone's offset of UNTIL are kept or dropped wrongly")
+
+
+def r07_13(prog, rep, rid="R07.13"):
+    """The serialiser of a rule stream writes the earliest pending instant as DTSTART.  Cached occurrences are UTC, the proto instant
+    of a stream is on the wall clock of its zone: wherever send_evrrul() compares instants or hands one to the writer, a proto
+    instant must have gone through echs_instant_utc() (unless it is the nul instant, which says `end of stream`)."""
+    f = prog.fn("send_evrrul", "evical.c")
+    cfg = f.cfg
+    insts = {l_["n"] for l_ in f.locals if "echs_instant_t" in (l_.get("t") or "")} | \
+        {l_["n"] + ".from" for l_ in f.locals if "echs_event_t" in (l_.get("t") or "")}
+    if not insts:
+        raise AnalysisBroken("send_evrrul: no instant-valued local found")
+    bad = []
+    uses = [0]
+
+    def state_of(e, store):
+        e = strip_casts(cfg.resolve(e))
+        t = lv(e)
+        if t in insts:
+            return store.get("$st:" + t, "?")
+        if e.get("k") == "idx" and "cch" in t:
+            return "utc"
+        if e.get("k") == "mem" and t.endswith("e.from"):
+            return "wall"
+        if e.get("k") == "call" and e.get("fn") == "echs_instant_utc":
+            return "utc"
+        if e.get("k") == "call" and e.get("fn") in ("echs_nul_instant", "echs_max_instant"):
+            return "nul"
+        return "?"
+
+    def effect(b, i, x, store):
+        upd = {}
+        if not isinstance(x, dict):
+            return upd
+        for l, kind, nn in writes(x):
+            t = lv(l)
+            rhs = nn.get("init") if kind == "decl" else (nn.get("r") if nn.get("k") == "bin" and nn["op"] == "=" else None)
+            if rhs is None:
+                continue
+            if t in insts:
+                upd["$st:" + t] = state_of(rhs, store)
+            elif "echs_event_t" in (strip_casts(l).get("t") or "") and (t + ".from") in insts:
+                r_ = strip_casts(cfg.resolve(rhs))
+                upd["$st:" + t + ".from"] = "wall" if lv(r_).endswith("->e") or lv(r_).endswith(".e") else "?"
+        for c in calls(x):
+            if c.get("fn") in ("echs_instant_lt_p", "echs_instant_le_p", "echs_instant_eq_p", "send_ev"):
+                for a in c.get("a", []):
+                    a_ = strip_casts(cfg.resolve(a))
+                    st = None
+                    if lv(a_) in insts or a_.get("k") in ("idx", "mem", "call"):
+                        st = state_of(a_, store)
+                    elif a_.get("k") == "ref" and (a_["n"] + ".from") in insts:
+                        st = store.get("$st:" + a_["n"] + ".from", "?")
+                    if st is None:
+                        continue
+                    uses[0] += 1
+                    if st == "wall":
+                        bad.append((cfg.blocks[b].elems[i].get("line"), c["fn"], show(a_)[:30]))
+        return upd
+
+    def assume(b, si, c, st):
+        # on the side of a nul test on which the instant *is* nul it says `end of stream`, not a time on any clock
+        for q in walk(c):
+            if q.get("k") == "call" and q.get("fn") == "echs_nul_instant_p" and q.get("a"):
+                a_ = strip_casts(cfg.resolve(q["a"][0]))
+                t = lv(a_) if lv(a_) in insts else (a_.get("n", "") + ".from" if a_.get("k") == "ref" else None)
+                if t in insts:
+                    neg = strip_casts(strip(c))
+                    negated = neg.get("k") == "un" and neg.get("op") == "!"
+                    is_nul_edge = (si == 0) != negated
+                    if is_nul_edge and st.get("$st:" + t) == "wall":
+                        return {"$st:" + t: "nul"}
+        return None
+    w = AbsWalk(f, set(), effect=effect, assume=assume, max_states=20000)
+    w.run()
+    key = "send_evrrul/proto-off-the-wall-clock-before-it-meets-the-cache"
+    if uses[0] < 2:
+        raise AnalysisBroken("send_evrrul: comparisons of pending instants / the call of the event writer were not found")
+    if bad:
+        ln, fn, what = bad[0]
+        rep.fail(rid, key, f.loc(ln), "`%s` reaches %s() as it was read off the stream's proto event — on the wall clock of the stream's zone — while cached "
+                 "occurrences are UTC: west of Greenwich the stale proto looks earlier than the next cached occurrence, wins, and DTSTART is "
+                 "written hours off" % (what, fn))
+    else:
+        rep.ok(rid, key, f.loc(), "%d uses of pending instants in comparisons and in the writer: proto instants are converted (or nul) by then" % uses[0])
 
 
 def _probe_signature(f, table):
@@ -1299,8 +1403,10 @@ def run(prog, rep, tier, snap):
     rep.call(r07_5, prog, rep)
     rep.rule("R07.6", "all-day RDATEs are corrected by (proto offset - own offset)", 2)
     rep.call(r07_6, prog, rep)
-    rep.rule("R07.12", "every occurrence of a rule is converted to UTC on its own; the fillers see UNTIL on the wall clock", 2)
+    rep.rule("R07.12", "every occurrence of a rule is converted to UTC on its own, the next batch's start is not; the fillers see UNTIL on the wall clock", 3)
     rep.call(r07_12, prog, rep)
+    rep.rule("R07.13", "the serialiser converts a stream's proto instant before it compares it with cached occurrences", 1)
+    rep.call(r07_13, prog, rep)
     rep.rule("R07.7", "zone names are looked up along the probe sequence they were filed under", 2)
     rep.call(r07_7, prog, rep)
     rep.rule("R07.8", "the transition search is entered only with time stamps that lie in one of its cells", 2)
